@@ -12,6 +12,11 @@ CLAIMED = {
     text='Every MIR Assert, every library call with a panic precondition and every diverging call reachable from Message::try_from / from_bytes / Display / Debug is an obligation discharged by a sound abstract interpretation over arbitrary input bytes; loops are shown bounded (unrolled to completion or driven by finite iterators); every Ok state of try_from carries len = 7 or 14 as its DF id prescribes; reachable external callees carry no clock/random/env/IO effect.',
     note='Trusted: rustc MIR semantics at mir-opt-level 0, the library contracts in checker/models.py (deku 0.18 reads, core/alloc containers, fmt, regex-literal rule), totality of the listed trusted external crates, the engine itself. Allocation failure and stack exhaustion are out of scope. x86-64 usize.',
     ref='DESIGN.md §7 C01'),
+ 'C16': dict(level='proof', engine='absint',
+    technique='abstract interpretation of MIR with url/regex/serde-data contracts evaluated on the literals and data files; effect closure; format-template comparison',
+    text='Every panic obligation below <Source as FromStr>::from_str and <Position as FromStr>::from_str is discharged for an arbitrary &str; constant-argument calls (Url::parse literal, Regex::new literals, the airports table parsed behind Lazy) are re-validated on the current literal / data file; Source::serial reaches no clock/random/env effect (DefaultHasher has fixed keys), formats the table form from exactly (address, port), with the same template as the string form.',
+    note='Trusted: rustc MIR, contracts in checker/models.py for url 2.x (special schemes have a known default port and a path starting with "/"), regex/url literal rules, serde derive (non-Option fields required, unknown fields ignored). "Well-formed specifications yield that endpoint" is not decided beyond the template/argument rules.',
+    ref='DESIGN.md §7 C16'),
  'C18': dict(level='proof', engine='absint',
     technique='abstract interpretation of MIR (intervals + symbolic terms), normal-form comparison',
     text='Every overflow/division Assert of the two conversion functions is discharged by interval analysis over the whole stated domain, and the symbolic result term is normalised and compared with the closed form the property states; sound for all inputs, not sampled.',
